@@ -26,8 +26,12 @@ from .seeds import Seeds, digest_obj
 
 REPO = os.environ.get("SHROUD_REPO", "/repo")
 SUBJECT = os.path.join(report.VERIF, "c06", "subject")
+SUBJECT_C = os.path.join(report.VERIF, "c06", "subject_c")
+# drivers of the C++ subject (simlib) and of the C subject (simc, language: c code paths)
+CXX_DRIVERS = ("f", "py", "c", "fc", "cc")
+C_DRIVERS = ("fc", "cc")
 PY = sys.executable
-DRIVERS = ("f", "py", "c")
+DRIVERS = ("f", "py", "c", "fc", "cc")
 
 CXXFLAGS = ["-g", "-O0", "-std=c++11", "-fsanitize=address", "-fno-omit-frame-pointer", "-fPIC", "-w"]
 CFLAGS = ["-g", "-O0", "-std=c99", "-fsanitize=address", "-fno-omit-frame-pointer", "-w"]
@@ -74,6 +78,23 @@ def split_decls(text):
     return head + "declarations:\n", blocks, tail
 
 
+def make_variant_c(rng, base_text, index):
+    """C subject: permute the function declarations, toggle comment-only / wrapper-forcing options."""
+    head, blocks, tail = split_decls(base_text)
+    structs = [b for b in blocks if b.startswith("- decl: struct")]
+    funcs = [b for b in blocks if not b.startswith("- decl: struct")]
+    rng.shuffle(funcs)
+    opts = {}
+    for name in ("debug", "literalinclude", "C_force_wrapper", "F_force_wrapper", "doxygen"):
+        if rng.random() < 0.4:
+            opts[name] = rng.choice([True, False])
+    d = yaml.safe_load(head)
+    d["options"].update(opts)
+    head2 = yaml.safe_dump({k: v for k, v in d.items() if k != "declarations"}, sort_keys=False)
+    return head2 + "declarations:\n" + "".join(structs + funcs) + tail, {"variant": "c%d" % index, "subject": "simc",
+                                                                         "options": opts}
+
+
 def make_variant(rng, base_text, index):
     """Permute declaration order, insert extra classes/functions (they shift the destructor
     table) and toggle options that keep the wrapped API unchanged."""
@@ -106,11 +127,12 @@ def make_variant(rng, base_text, index):
 
 # ------------------------------------------------------------------ build
 class Build(object):
-    def __init__(self, workdir, yaml_text, drivers, tag):
+    def __init__(self, workdir, yaml_text, drivers, tag, lib="simlib"):
         self.dir = workdir
         self.yaml_text = yaml_text
         self.drivers = list(drivers)
         self.tag = tag
+        self.lib = lib  # "simlib" (C++ subject) or "simc" (C subject)
         self.ok = {}
         self.errors = {}
         self.gen_files = []
@@ -123,11 +145,15 @@ class Build(object):
         for f in os.listdir(SUBJECT):
             if f != "simlib.yaml":
                 shutil.copy(os.path.join(SUBJECT, f), self.dir)
-        with open(os.path.join(self.dir, "simlib.yaml"), "w") as fp:
+        if self.lib == "simc":
+            for f in os.listdir(SUBJECT_C):
+                if f != "simc.yaml":
+                    shutil.copy(os.path.join(SUBJECT_C, f), self.dir)
+        with open(os.path.join(self.dir, self.lib + ".yaml"), "w") as fp:
             fp.write(self.yaml_text)
         code = ("import sys; sys.path.insert(0, %r); import shroud.main; "
                 "sys.argv=['shroud','--outdir',%r,'--logdir',%r,%r]; shroud.main.main()"
-                % (REPO, self.dir, self.dir, os.path.join(self.dir, "simlib.yaml")))
+                % (REPO, self.dir, self.dir, os.path.join(self.dir, self.lib + ".yaml")))
         p = self.sh([PY, "-c", code], timeout=300)
         if p.returncode != 0:
             self.errors["generate"] = (p.stdout + p.stderr)[-1500:]
@@ -135,7 +161,60 @@ class Build(object):
         self.gen_files = sorted(os.listdir(self.dir))
         return True
 
+    def compile_c_subject(self, workers=16):
+        """language: c subject: generated *.c compiled as C, Fortran module, drivers with -DSIMC."""
+        files = self.gen_files
+        gen_c = [f for f in files if f.endswith(".c") and (f.startswith("wrap") or f.startswith("util"))]
+        jobs = [(f, ["gcc"] + CFLAGS + ["-c", f, "-o", f[:-2] + ".o"]) for f in gen_c]
+        jobs += [(f, ["g++"] + CXXFLAGS + ["-c", f, "-o", f[:-4] + ".o"]) for f in ("simc_impl.cpp", "simhook.cpp")]
+        if "cc" in self.drivers:
+            jobs.append(("drv_c.c", ["gcc"] + CFLAGS + ["-DSIMC", "-c", "drv_c.c", "-o", "drv_c.o"]))
+        errs = {}
+
+        def run(job):
+            name, argv = job
+            p = self.sh(argv, timeout=600)
+            if p.returncode != 0:
+                errs[name] = p.stderr[-1200:]
+
+        with cf.ThreadPoolExecutor(max_workers=workers) as ex:
+            list(ex.map(run, jobs))
+        objs = [f[:-2] + ".o" for f in gen_c] + ["simc_impl.o", "simhook.o"]
+        ok_lib = not any(k in errs for k in gen_c + ["simc_impl.cpp", "simhook.cpp"])
+        if "fc" in self.drivers:
+            good = ok_lib
+            ff = [f for f in files if f.endswith(".f")]
+            for f in ff:
+                p = self.sh(["gfortran"] + FFLAGS + ["-c", f, "-o", f[:-2] + ".o"], timeout=600)
+                if p.returncode != 0:
+                    errs[f] = p.stderr[-1200:]
+                    good = False
+            if good:
+                p = self.sh(["gfortran"] + FFLAGS + ["-DSIMC", "-c", "drv_f.f90", "-o", "drv_f.o"], timeout=600)
+                if p.returncode != 0:
+                    errs["drv_f.f90"] = p.stderr[-1200:]
+                    good = False
+            if good:
+                p = self.sh(["gfortran", "-fsanitize=address"] + objs + [f[:-2] + ".o" for f in ff] +
+                            ["drv_f.o", "-lstdc++", "-o", "drv_f"], timeout=600)
+                if p.returncode != 0:
+                    errs["link drv_f"] = p.stderr[-1200:]
+                    good = False
+            self.ok["fc"] = good
+        if "cc" in self.drivers:
+            good = ok_lib and "drv_c.c" not in errs
+            if good:
+                p = self.sh(["g++", "-fsanitize=address"] + objs + ["drv_c.o", "-o", "drv_c"], timeout=600)
+                if p.returncode != 0:
+                    errs["link drv_c"] = p.stderr[-1200:]
+                    good = False
+            self.ok["cc"] = good
+        self.errors.update(errs)
+        return self.ok
+
     def compile(self, workers=16):
+        if self.lib == "simc":
+            return self.compile_c_subject(workers)
         files = self.gen_files
         cxx = [f for f in files if f.endswith(".cpp") and not f.startswith("py") and not f.startswith("lua")]
         pycxx = [f for f in files if f.endswith(".cpp") and f.startswith("py")] + ["simlib.cpp", "simhook.cpp"]
@@ -206,9 +285,9 @@ class Build(object):
         env = dict(os.environ)
         env["ASAN_OPTIONS"] = "detect_leaks=0:abort_on_error=0:halt_on_error=1:allocator_may_return_null=1:" \
                               "alloc_dealloc_mismatch=1:exitcode=66:detect_stack_use_after_return=0"
-        if driver == "f":
+        if driver in ("f", "fc"):
             return [os.path.join(self.dir, "drv_f"), opsfile], env
-        if driver == "c":
+        if driver in ("c", "cc"):
             return [os.path.join(self.dir, "drv_c"), opsfile], env
         env["LD_PRELOAD"] = libasan()
         env["PYTHONMALLOC"] = "malloc"
@@ -458,12 +537,20 @@ class C06Engine(object):
         self.selftest = {}
         with open(os.path.join(SUBJECT, "simlib.yaml")) as fp:
             self.base_yaml = fp.read()
+        with open(os.path.join(SUBJECT_C, "simc.yaml")) as fp:
+            self.base_yaml_c = fp.read()
 
     def build_variant(self, index):
         rng = self.seeds.rng("c06variant", index)
-        text, meta = make_variant(rng, self.base_yaml, index)
-        d = os.path.join(campaign.scratch_dir(), "c06-v%d" % index)
-        b = Build(d, text, DRIVERS if os.path.exists(os.path.join(SUBJECT, "drv_c.c")) else ("f", "py"), "v%d" % index)
+        # every fourth variant wraps the C subject (language: c code paths)
+        if index % 4 == 2:
+            text, meta = make_variant_c(rng, self.base_yaml_c, index)
+            d = os.path.join(campaign.scratch_dir(), "c06-v%d" % index)
+            b = Build(d, text, C_DRIVERS, "v%d" % index, lib="simc")
+        else:
+            text, meta = make_variant(rng, self.base_yaml, index)
+            d = os.path.join(campaign.scratch_dir(), "c06-v%d" % index)
+            b = Build(d, text, CXX_DRIVERS, "v%d" % index)
         b.meta = meta
         if b.generate():
             b.compile(self.args.workers)
@@ -680,7 +767,7 @@ class C06Engine(object):
         if self.args.replay:
             return self.replay(self.args.replay)
         if self.args.dump_specs:
-            specs = [self.sequence_spec(0, d, i) for d in ("f", "py", "c") for i in range(40)]
+            specs = [self.sequence_spec(0, d, i) for d in DRIVERS for i in range(40)]
             print(digest_obj(specs))
             return 0
         try:
@@ -701,7 +788,8 @@ class C06Engine(object):
               "%d inconclusive, %.1fs" % (self.tier, len(self.builds), st["sequences"], st["ops"], len(self.states),
                                           st["violating"], st["inconclusive"], time.time() - self.t0))
         if code == 0:
-            never = [d for d in DRIVERS if not any(b.ok.get(d) for b in self.builds.values())]
+            want = [d for d in DRIVERS if any(d in b.drivers for b in self.builds.values())]
+            never = [d for d in want if not any(b.ok.get(d) for b in self.builds.values())]
             base_ok = self.builds.get(0) and "generate" not in self.builds[0].errors
             if base_ok and any("generate" in b.errors for b in self.builds.values()):
                 never.append("variant generation")
@@ -718,7 +806,7 @@ class C06Engine(object):
         with open(path) as fp:
             rf = json.load(fp)
         d = os.path.join(campaign.scratch_dir(), "c06-replay")
-        b = Build(d, rf["yaml"], [rf["driver"]], "replay")
+        b = Build(d, rf["yaml"], [rf["driver"]], "replay", lib="simc" if rf["driver"] in C_DRIVERS else "simlib")
         b.meta = rf.get("variant_meta")
         if not b.generate() or not b.compile(self.args.workers).get(rf["driver"]):
             print("HARNESS-ERROR: build failed: %s" % json.dumps(b.errors)[:1500])
